@@ -19,7 +19,8 @@ def one(sid):
     if r.returncode != 0:
         return sid, prop, {'exit': -1, 'lines': [r.stderr[-300:]], 's': 0}
     t = time.time()
-    env = dict(os.environ, VERIF_REPO=wt, VERIF_JOBS='8')
+    os.makedirs('/tmp/seed-evidence', exist_ok=True)
+    env = dict(os.environ, VERIF_REPO=wt, VERIF_JOBS='8', VERIF_EVIDENCE_DIR='/tmp/seed-evidence')
     q = subprocess.run(['./check', prop, '--tier', 'quick'], cwd='/verif', capture_output=True, text=True, env=env)
     lines = [l for l in q.stdout.split('\n') if l.startswith(('VIOLATION', 'KNOWN-FINDING', 'INCONCLUSIVE'))]
     subprocess.run('git -C /repo worktree remove --force %s' % wt, shell=True, capture_output=True)
@@ -36,6 +37,5 @@ def one(sid):
 
 with ThreadPoolExecutor(jobs) as ex:
     out = list(ex.map(one, seeds))
-subprocess.run('git -C /verif checkout -- evidence', shell=True, capture_output=True)
 bad = [(s, p, r['exit']) for s, p, r in out if r['exit'] != 1]
 print('NOT DETECTED:', bad)
